@@ -261,7 +261,10 @@ func extErrorf(fr *frame, args []value) value {
 	if f, ok := args[0].(string); !ok || strings.Contains(f, "%w") {
 		return fallthroughSSA{}
 	}
+	fr.i.ctx.errText = true
+	fr.i.noteAssumption("the text of errors built with fmt.Errorf shows one representative value of symbolic operands (the operand itself stays symbolic)")
 	out, ok, _ := fr.sprintf(args[0], args[1].([]value))
+	fr.i.ctx.errText = false
 	if !ok {
 		return fallthroughSSA{}
 	}
